@@ -995,23 +995,6 @@ class BenchTranslator:
                 parts.append(e["draws#"].c)
             return self.tuple_of(parts)
         body = self.block(list(s.body), env_b, fin)
-        toks = tokens(body)
-        params = []
-        for v, val in env.items():
-            if "#" in v or v in carried or v in tnames or val.t in ("obj", "dead", "lit") or val.c is None:
-                continue
-            if val.c in toks and val.c not in params:
-                params.append((val.c, val.t))
-        # attribute variables and oracles read by the body
-        attr_params = [(mangle(attr_var(a)), {"T": "T", "nat": "nat", "list T": "listT", "sized": "nat"}[t])
-                       for a, t in self.attrs if mangle(attr_var(a)) in toks]
-        seen, plist = set(), []
-        for c_, t_ in attr_params + params:
-            if c_ not in seen:
-                seen.add(c_)
-                plist.append((c_, t_))
-        if draws and "draws" in toks:
-            plist.insert(0, ("draws", "stream"))
         cq = {"T": "T", "nat": "nat", "listT": "(list T)", "bool": "bool", "stream": "(nat -> T)"}
         st_types = [cq[ctypes[v]] for v in carried] + (["nat"] if draws else [])
         st_type = st_types[0] if len(st_types) == 1 else "(%s)%%type" % " * ".join(st_types)
@@ -1024,10 +1007,10 @@ class BenchTranslator:
             unpack += "let '(%s) := el in\n" % ", ".join(mangle(v) for v in tnames)
         st_binder = "(st : %s)" % st_type if len(st_pat) > 1 else "(%s : %s)" % (st_pat[0], st_type)
         el_binder = "(el : %s)" % el_type if len(tnames) > 1 else "(%s : %s)" % (mangle(tnames[0]), el_type)
-        self.defs.append("(* loop %d of %s (line %d): state = %s *)\nDefinition %s %s %s %s : %s :=\n%s." % (
-            kloop, self.qual, s.lineno, ", ".join(state_names).replace("draws#", "number of draws"), body_name,
-            " ".join("(%s : %s)" % (c_, cq[t_]) for c_, t_ in plist), st_binder, el_binder, st_type,
-            textwrap.indent(unpack + body, "  ")))
+        # the body is an anonymous function in place (it closes over the locals it reads): a proof never names it
+        body_fun = "(fun %s %s =>\n%s)" % (st_binder, el_binder, textwrap.indent(unpack + body, "   "))
+        comment = "(* loop of %s, line %d: state = %s *)" % (
+            self.qual, s.lineno, ", ".join(state_names).replace("draws#", "number of draws"))
         init = []
         for v in carried:
             init.append(self.state_code(env[v], ctypes[v], s))
@@ -1044,9 +1027,9 @@ class BenchTranslator:
                 env2[v] = Val("dead")
         for v in tnames:
             env2[v] = Val("dead")
-        body_app = "(%s %s)" % (body_name, " ".join(c_ for c_, _ in plist)) if plist else body_name
-        return "let %s := fold_left %s %s %s in\n%s" % (
-            self.pattern(st_pat), body_app, lst, self.tuple_of(init), self.block(rest, env2, k))
+        return "let %s :=\n  %s\n  fold_left %s\n    %s %s in\n%s" % (
+            self.pattern(st_pat), comment, textwrap.indent(body_fun, "  ").lstrip(), lst, self.tuple_of(init),
+            self.block(rest, env2, k))
 
     # ---------------------------------------------------------------- the function
     def translate(self):
